@@ -255,3 +255,76 @@ Theorem inv02L_holds c ext l denoms : Inv02L c ext l -> holds_C02_life c ext den
 Proof.
   intros J. unfold holds_C02_life. apply forallb_forall. intros d _. unfold c02l_backing. destruct (J d) as [J1 J2]. apply Z.leb_le. lia.
 Qed.
+
+(* ---------- histories without liquidations: exact equality ---------- *)
+Definition NoSeized (l : lstate) : Prop := lks l = [] /\ forall d, over l d = 0.
+
+Lemma tick_one_noseized lc l aid l' : lks l = [] -> tick_one lc l aid = Ok l' -> lks l' = [] /\ over l' = over l.
+Proof.
+  intros Hl H. unfold tick_one in H. cbv zeta in H.
+  destruct (find_au (aus l) aid) as [a|]; [|injection H as <-; split; [first [exact Hl|reflexivity]|reflexivity]].
+  rewrite Hl in H. cbn [find_lk gfind] in H.
+  destruct (e_status _); destruct (now (vs l) >? au_end a); try (injection H as <-; split; [first [exact Hl|reflexivity]|reflexivity]).
+  do 3 exec1 H. injection H as <-. split; [first [exact Hl|reflexivity]|reflexivity].
+Qed.
+
+Lemma auc_tick_noseized lc l : NoSeized l -> NoSeized (auc_tick lc l).
+Proof.
+  unfold auc_tick. generalize (map au_id (aus l)) as ids. intros ids. revert l.
+  induction ids as [|aid ids IH]; intros l N; cbn [fold_left]; [exact N|].
+  destruct (tick_one lc l aid) as [l1| |] eqn:T; cbn [keep]; try exact (IH l N).
+  destruct N as [N1 N2]. destruct (tick_one_noseized lc l aid l1 N1 T) as [T1 T2]. apply IH. split; [exact T1|]. rewrite T2. exact N2.
+Qed.
+
+Lemma esm_redeem_loop_noseized c lc app vl : forall l l', NoSeized l -> esm_redeem_loop c lc app vl l = Ok l' -> NoSeized l'.
+Proof.
+  induction vl as [|v vl IH]; intros l l' N H; cbn [esm_redeem_loop] in H; [injection H as <-; exact N|].
+  destruct (esm_redeem_one c lc app l v) as [l1| |] eqn:E1; cbn [obind] in H; try discriminate H.
+  apply (IH l1 l'); [|exact H].
+  destruct (esm_redeem_one_shape c lc app l v l1 E1) as [->|(e & _ & _ & _ & _ & Hl & _ & Ho)]; [exact N|].
+  destruct N as [N1 N2]. split; [rewrite Hl; exact N1|rewrite Ho; exact N2].
+Qed.
+
+Lemma lrun_noseized c lc l o l' : is_liq o = false -> NoSeized l -> lrun c lc l o = Ok l' -> NoSeized l'.
+Proof.
+  intros Hn N H. destruct o; cbn [lrun is_liq] in *; try discriminate Hn.
+  - destruct (run c (vs l) o) as [s'| |]; try discriminate H. injection H as <-. exact N.
+  - exfalso. unfold bid in H. destruct (find_au (aus l) aid) as [a|]; [|discriminate H].
+    rewrite (proj1 N) in H. cbn [find_lk gfind] in H. discriminate H.
+  - injection H as <-. exact (auc_tick_noseized lc l N).
+  - exact (esm_redeem_loop_noseized c lc app _ l l' N H).
+Qed.
+
+Theorem history_exact c ext lc ops : cfg_ok c -> Forall (fun o => is_liq o = false) ops ->
+  forall l, hist_ok c lc l ops -> InvL c l -> Inv02L c ext l -> NoSeized l ->
+  forall d, sup (vs (lrun_all c lc ops l)) d - ext d = recorded_d c (lrun_all c lc ops l) d.
+Proof.
+  intros CK HN l HO I J N.
+  assert (G : NoSeized (lrun_all c lc ops l)).
+  { revert l HO I J N. induction HN as [|o ops Ho HN IH]; intros l HO I J N; [exact N|].
+    destruct HO as [Hok HO]. cbn [lrun_all fold_left].
+    assert (I1 : InvL c (lstep c lc l o)) by (apply lstep_invL; assumption).
+    destruct (lstep_cases c lc l o) as [(l' & H & E)|[_ E]]; rewrite E in *.
+    - apply (IH l' HO I1 (lrun_inv02 c ext lc l o l' CK Hok I J H)). exact (lrun_noseized c lc l o l' Ho N H).
+    - exact (IH l HO I J N). }
+  destruct (history_inv02L c ext lc ops CK l HO I J) as [_ J']. intros d. destruct (J' d) as [J1 _]. rewrite (proj2 G d) in J1. lia.
+Qed.
+
+(* ---------- the settlement burns exactly the seized vault's debt ---------- *)
+Theorem bid_settle_law c lc l aid who paid recv closed exh topup l' denoms : who <> VAULT -> InvL c l ->
+  bid lc l aid who paid recv closed exh topup = Ok l' -> holds_C02_settle denoms l aid closed l' = true.
+Proof.
+  intros Hw I H.
+  assert (HL : forall k, In k (lks l) -> lk_owner k <> VAULT /\ (lk_intk k = true -> lk_keeper k <> VAULT)).
+  { intros k Hk. destruct (il_lk _ _ I k Hk) as (H1 & H2 & _). split; assumption. }
+  destruct (bid_spec lc l aid who paid recv closed exh topup l' Hw HL H) as (a & lk & Ma & Mk & Hc).
+  unfold holds_C02_settle. rewrite Ma, Mk. apply forallb_forall. intros d _.
+  destruct closed.
+  - destruct Hc as (s' & r' & -> & B & Hd & Hs). unfold closes. cbn [vs andb].
+    assert (Hss : forall x, sup (upd_coll (upd_mint s' (au_app a) (lk_pair lk) (lk_debt lk) false) (au_app a) (lk_pair lk) (lk_coll lk) false) x = sup s' x).
+    { intros x. unfold upd_coll, upd_mint. repeat (match goal with |- context [match ?y with _ => _ end] => destruct y end; ssimpl); reflexivity. }
+    assert (Hbb : forall x, bal (upd_coll (upd_mint s' (au_app a) (lk_pair lk) (lk_debt lk) false) (au_app a) (lk_pair lk) (lk_coll lk) false) VAULT x = bal s' VAULT x).
+    { intros x. unfold upd_coll, upd_mint. repeat (match goal with |- context [match ?y with _ => _ end] => destruct y end; ssimpl); reflexivity. }
+    rewrite Hss, Hbb, Hs, (bs_cust _ _ B). unfold at1. rewrite Z.eqb_refl, andb_true_r. apply Z.eqb_eq. destruct (d =? au_cout a); lia.
+  - destruct Hc as (s' & -> & B & Hs). cbn [vs andb]. rewrite Hs, (bs_cust _ _ B), Z.eqb_refl, andb_true_r. apply Z.eqb_eq. lia.
+Qed.
